@@ -262,7 +262,7 @@ func (g *gen) typeConst(e *Expr, op string) {
 		g.tag("typed_literal")
 		return
 	}
-	if g.pct(8) && e.T.W <= 64 {
+	if (g.pct(8) || (g.opts.defect == "const_cast_shared" && g.pct(60))) && e.T.W <= 64 {
 		// F5: a typed constant whose top bit is set narrows the shared constant
 		// `$n` (ssa.Program.Constants is keyed by name); a later plain use of the
 		// same number is then sign-extended from the narrow wires.  Only the
@@ -606,7 +606,7 @@ func (g *gen) binNum(t *Ty, op string, d int) *Expr {
 		}
 		if b != nil {
 			g.tag("literal_operand")
-			if g.pct(25) && op != "sub" && op != "clr" { // constant on the left
+			if g.pct(25) { // constant on the left
 				return &Expr{K: "bin", X: op, T: t, A: b, B: a}
 			}
 		}
@@ -752,7 +752,8 @@ func (g *gen) cmp(d int) *Expr {
 		return &Expr{K: "bin", X: "eq", T: tyBool, A: ls[0], B: ls[len(ls)-1]}
 	}
 	var b *Expr
-	if g.pct(35) {
+	probeLeft := g.opts.defect == "const_left_unsigned"
+	if g.pct(35) || (probeLeft && g.pct(60)) {
 		if g.pct(25) {
 			b = g.loopLeaf(t, op)
 		}
@@ -761,7 +762,7 @@ func (g *gen) cmp(d int) *Expr {
 		}
 		if b != nil {
 			g.tag("cmp_literal")
-			if g.pct(20) {
+			if g.pct(20) || probeLeft {
 				// F6: the comparator's signedness follows the LEFT operand, and a
 				// literal is a signed constant: `c < x` on uintN, N >= 32, compares
 				// signed.  Only the probe class puts the constant first there.
@@ -1210,6 +1211,32 @@ func (g *gen) stmtMultiCall() []*Stmt {
 	return []*Stmt{{K: "define", Xs: xs, E: call}}
 }
 
+// forceCall calls helper f and keeps the results in fresh variables.
+func (g *gen) forceCall(f *Func) []*Stmt {
+	args := g.callArgs(f, g.opts.maxDepth)
+	if args == nil {
+		return nil
+	}
+	g.called[f] = true
+	g.cost += 400
+	call := &Expr{K: "call", Fn: f, Args: args}
+	if len(f.Results) == 1 {
+		call.T = f.Results[0]
+		name := g.fresh()
+		g.declare(name, call.T, true)
+		g.tag("call_decl")
+		return []*Stmt{{K: "decl", X: name, T: call.T, E: call}}
+	}
+	var xs []string
+	for _, rt := range f.Results {
+		n := g.fresh()
+		xs = append(xs, n)
+		g.declare(n, rt, true)
+	}
+	g.tag("multi_define")
+	return []*Stmt{{K: "define", Xs: xs, E: call}}
+}
+
 func (g *gen) stmtReturn(results []*Ty) []*Stmt {
 	if g.f.Named != nil {
 		return []*Stmt{{K: "retnamed", Xs: g.f.Named}}
@@ -1241,6 +1268,9 @@ func (g *gen) stmtReturn(results []*Ty) []*Stmt {
 	var es []*Expr
 	for _, rt := range results {
 		e := g.expr(rt, g.opts.maxDepth, true)
+		if e != nil {
+			e = g.mixLive(rt, e)
+		}
 		if e == nil {
 			// aggregate result without a source: make one
 			name := g.fresh()
@@ -1254,6 +1284,59 @@ func (g *gen) stmtReturn(results []*Ty) []*Stmt {
 	return append(pre, &Stmt{K: "ret", Es: es})
 }
 
+// mixLive makes a result depend on more of the computed state: up to three
+// scalar variables (the most recently declared ones first) are folded into e.
+// Without this most generated statements would be dead code and a
+// miscompilation in them invisible.
+func (g *gen) mixLive(t *Ty, e *Expr) *Expr {
+	if e.IsConst() {
+		return e
+	}
+	var cand []gvar
+	for i := len(g.vars) - 1; i >= 0; i-- {
+		v := g.vars[i]
+		if v.loop || !v.t.IsScalar() {
+			continue
+		}
+		cand = append(cand, v)
+	}
+	if len(cand) == 0 {
+		return e
+	}
+	n := 1 + g.r.Intn(3)
+	for k := 0; k < n && len(cand) > 0; k++ {
+		// bias to recent variables
+		idx := g.r.Intn(len(cand))
+		if g.pct(60) {
+			idx = g.r.Intn((len(cand) + 1) / 2)
+		}
+		v := cand[idx]
+		cand = append(cand[:idx], cand[idx+1:]...)
+		ve := &Expr{K: "var", X: v.name, T: v.t}
+		switch {
+		case t.K == KBool && v.t.K == KBool:
+			e = &Expr{K: "bin", X: []string{"eq", "ne"}[g.r.Intn(2)], T: tyBool, A: e, B: ve}
+		case t.K == KBool && v.t.IsNum():
+			// compare the variable with itself shifted: depends on its value
+			c := &Expr{K: "bin", X: "ne", T: tyBool, A: ve, B: &Expr{K: "shift", Left: false, A: ve, Sh: 1, T: v.t}}
+			e = &Expr{K: "bin", X: "ne", T: tyBool, A: e, B: c}
+		case t.IsNum() && v.t.IsNum():
+			var x *Expr
+			if v.t.Eq(t) {
+				x = ve
+			} else if g.castOK(v.t, t) {
+				x = g.mkCast(t, ve)
+			} else {
+				continue
+			}
+			op := []string{"add", "xor", "sub"}[g.r.Intn(3)]
+			e = &Expr{K: "bin", X: op, T: t, A: e, B: x}
+		}
+	}
+	g.tag("result_mixes_live_variables")
+	return e
+}
+
 // stmts generates n statements in the current scope; the flag tells that the
 // list ends in an if/else whose branches all return.
 func (g *gen) stmts(n int, depth int, results []*Ty, inLoop bool) ([]*Stmt, bool) {
@@ -1261,7 +1344,11 @@ func (g *gen) stmts(n int, depth int, results []*Ty, inLoop bool) ([]*Stmt, bool
 	for i := 0; i < n; i++ {
 		var s []*Stmt
 		term := false
-		switch g.pick(24, 28, 16, 9, 14) {
+		ws := []int{24, 28, 16, 9, 14}
+		if g.inBlock > 0 {
+			ws = []int{10, 50, 16, 9, 10} // inside blocks: mostly assignments to outer variables
+		}
+		switch g.pick(ws...) {
 		case 0:
 			s = g.stmtDecl()
 		case 1:
@@ -1362,6 +1449,17 @@ func (g *gen) function(name string, index int, params []Param, results []*Ty, na
 		f.Body = body
 		return f
 	}
+	// call the helpers nobody called yet (an uncalled function is not compiled)
+	for _, h := range g.p.Funcs {
+		if h == f || g.called[h] {
+			continue
+		}
+		if name == "main" || g.pct(50) {
+			if st := g.forceCall(h); st != nil {
+				body = append(body, st...)
+			}
+		}
+	}
 	if named {
 		// make sure every named result is assigned at least sometimes
 		for i, rn := range f.Named {
@@ -1436,6 +1534,9 @@ func genProgram(r *hxlib.Rng, opts genOpts) *Program {
 	np := 1 + r.Intn(3)
 	for i := 0; i < np; i++ {
 		g.palette = append(g.palette, g.randNumTy())
+	}
+	if opts.defect == "const_left_unsigned" {
+		g.palette = []*Ty{tUint([]int{32, 33, 40, 64}[r.Intn(4)])}
 	}
 	// struct types
 	if g.pct(35) {
